@@ -227,7 +227,7 @@ Definition check_rxcase (c : rxcase) : bool :=
   let n := rx_n c in
   let cells0 : list tcell := map Some (seq 0%nat n) in
   let h0 : theap float := rx_old c in
-  let '(cells1, h1) := if rx_reindex c then (reindex_cells (map Some (seq 0%nat n) ++ repeat None (rx_extra c)) cells0, h0)
+  let '(cells1, h1) := if rx_reindex c then reindex_cells float (map Some (seq 0%nat n) ++ repeat None (rx_extra c)) cells0 h0
                        else copy_cells float cells0 h0 in
   let pat := map (fun x : tcell => match x with None => None | Some r => if Nat.ltb r n then Some (Some r) else Some None end) cells1 in
   let '((_, h2), _) := trace_t_cells float (rx_names c) (rx_reset c) 0%nat LStart (rx_res c) cells1 h1 in
